@@ -363,3 +363,56 @@ func VerifC08ClosedThenSend() {
 	sr.Close()
 	vassert(sw.Send(9, nil), "the writer is told on its next send that the reader has closed")
 }
+
+// five live sources: the one in the last position ends first while another one still has data
+func VerifC08Merge5CloseLast() {
+	n := 5
+	var srs []*StreamReader[int]
+	var sws []*StreamWriter[int]
+	for i := 0; i < n; i++ {
+		sr, sw := Pipe[int](2)
+		srs = append(srs, sr)
+		sws = append(sws, sw)
+	}
+	closer := vchoose("closer", n) // which source ends first (without items)
+	holder := (closer + n - 1) % n // a neighbouring source that still has an item
+	item := c08Val()
+	sws[holder].Send(item, nil)
+	sws[closer].Close()
+	m := MergeStreamReaders(srs)
+	v, err := m.Recv()
+	vassert(err == nil && v == item, "the item of a live source is delivered although another source of the five has ended")
+	for i := 0; i < n; i++ {
+		if i != closer {
+			sws[i].Close()
+		}
+	}
+	_, err = m.Recv()
+	vassert(err == io.EOF, "the merged stream ends after every source has ended")
+}
+
+// a merged reader closed after one of its sources has already ended: the remaining sources are closed
+func VerifC08MergeCloseAfterEOF() {
+	n := 2 + vchoose("n", 2)
+	var srs []*StreamReader[int]
+	var sws []*StreamWriter[int]
+	for i := 0; i < n; i++ {
+		sr, sw := Pipe[int](2)
+		srs = append(srs, sr)
+		sws = append(sws, sw)
+	}
+	ended := vchoose("ended", n)
+	sws[ended].Close()
+	m := MergeStreamReaders(srs)
+	other := (ended + 1) % n
+	sws[other].Send(5, nil)
+	// consume until the ended source has been noticed (the live item may come first or after)
+	v, err := m.Recv()
+	vassert(err == nil && v == 5, "live item delivered")
+	m.Close()
+	for i := 0; i < n; i++ {
+		if i != ended {
+			vassert(sws[i].Send(1, nil), "closing the merged reader closes every source that is still open: its writer is told")
+		}
+	}
+}
